@@ -6,7 +6,7 @@ import ast
 
 from ..interp import cval, has_const
 from ..source import norm_text
-from .common import parent_map, stmt_of, walk_no_nested
+from .common import def_map, expand, parent_map, stmt_of, walk_no_nested
 from .formula import check_degree
 from .geo import pbc_distance_obligations, uniq_events
 
@@ -63,6 +63,8 @@ def check_scan_exits(ctx, rule, fi, it):
             # the test that directly decides the break
             st = pm.get(id(b))
             test = st.test if isinstance(st, ast.If) else None
+            if test is not None:
+                test = expand(test, def_map(fi.node), keep=(var,))
             if test is None or var is None:
                 ctx.ob(rule, fi, b, None, 'break not directly guarded by a test on the scanned row')
                 continue
@@ -146,7 +148,9 @@ def check(ctx):
             same_atom = False
             window = False
             dist = False
+            defs = def_map(fi.node)
             for expr, pol in g:
+                expr = expand(expr, defs, keep=(vi, vj))
                 t = norm_text(expr).replace(' ', '')
                 if isinstance(expr, ast.Compare) and len(expr.ops) == 1:
                     cols_i, cols_j = row_cols(expr, vi), row_cols(expr, vj)
